@@ -1,0 +1,18 @@
+//go:build verif
+
+// Contracts for the engine facade, read by /verif/govc.
+// This file contains comments only; it is compiled only with -tags verif.
+
+package engine
+
+// C18 C06: the facade reports a command's verdict unchanged: no error stays no error (Ledger.SaveMeta and
+// Ledger.DeleteMetadata return the wrapped result directly: a wrapper around nil would turn every successful metadata
+// write into a failure, stop a bulk at an element that did not fail and make the error renderer dereference nil)
+//@ func engine.NewCommandError
+//@   ensures (ret == nil) <==> (param(0) == nil) // C18 C06
+//@   modifies nothing
+//@   property C18 C06
+//@ func engine.newStorageError
+//@   ensures (ret == nil) <==> (param(0) == nil) // C18 C06
+//@   modifies nothing
+//@   property C18 C06
